@@ -2,6 +2,7 @@ import GB.C05.Witness
 import GB.C05.PipelineProofs
 import GB.C05.Deadlock
 import GB.C05.Deciders
+import GB.C05.Ext
 import GB.Generated.Facts
 /-
   C05 — reflection resolution reproduces the target's contract for any conformant server.
@@ -921,3 +922,106 @@ theorem C05_facts_limit_default :
     (mkCfg 0 false []).ignore = [[103, 114, 112, 99, 46]] := by
   refine ⟨by decide, by decide, by decide, by decide, ?_⟩
   decide
+
+
+/-! ## protodesc.NewFiles beyond the base contract (Ext.lean) and nested additional_bindings
+
+`newFilesX` is validated against the real `reflection.parseFileDescriptors` by op `nf` on descriptor sets built
+at run time (public/weak imports, syntax/editions, symbol and package conflicts, repeated/unused imports,
+`required` in proto3). -/
+
+/-- Whatever `newFilesX` accepts is delivered as it is — the registry is exactly the descriptor set — and
+    satisfies every clause of the extended contract. -/
+theorem C05_newFilesX_sound (xs : List XFile) (reg : List DFile) (h : newFilesX xs = .ok reg) :
+    reg = xs.map (·.file) ∧ nodupB (xNames xs) = true ∧ xs.all syntaxOkB = true ∧ xs.all importsOkB = true ∧
+    closedXB xs = true ∧ acyclicB (presentDeps xs) = true ∧ nodupB (allSymbols xs) = true ∧
+    pkgConflictB xs = false ∧ typesResolveXB xs = true ∧ proto3RequiredB xs = false := by
+  unfold newFilesX at h
+  repeat' split at h
+  all_goals (try (simp at h))
+  simp_all
+
+/-- … and conversely a set satisfying the clauses is accepted: the clauses ARE the contract. -/
+theorem C05_newFilesX_complete (xs : List XFile)
+    (h1 : nodupB (xNames xs) = true) (h2 : xs.all syntaxOkB = true) (h3 : xs.all importsOkB = true)
+    (h4 : closedXB xs = true) (h5 : acyclicB (presentDeps xs) = true) (h6 : nodupB (allSymbols xs) = true)
+    (h7 : pkgConflictB xs = false) (h8 : typesResolveXB xs = true) (h9 : proto3RequiredB xs = false) :
+    newFilesX xs = .ok (xs.map (·.file)) := by
+  unfold newFilesX
+  simp [h1, h2, h3, h4, h5, h6, h7, h8, h9]
+
+/-- The delivered description of an accepted extended set: the registry is the set, and every wanted service
+    is `parseTarget` of it — methods, types, streaming kinds and bindings copied exactly (`C05_parse_exact`,
+    `C05_binding_exact` apply to it unchanged). -/
+theorem C05_parseX_exact (xs : List XFile) (wanted : List Name) (t : Target)
+    (h : parseFileDescriptorsX xs wanted = .ok t) :
+    t.files = xs.map (·.file) ∧ t.services = parseTarget (xs.map (·.file)) wanted ∧
+    t.services.map (·.name) = wanted := by
+  unfold parseFileDescriptorsX at h
+  split at h
+  · simp at h
+  · rename_i reg hreg
+    have := (C05_newFilesX_sound xs reg hreg).1
+    simp at h
+    subst h; subst this
+    refine ⟨rfl, rfl, ?_⟩
+    simp only [parseTarget, List.map_map]
+    conv => rhs; rw [← List.map_id wanted]
+    apply List.map_congr_left
+    intro n _
+    simp only [Function.comp]
+    split <;> rfl
+
+/-- NESTED additional_bindings (illegal per http.proto, unchecked by protobuf): `parseMethodDescriptor` reads
+    `AdditionalBindings` one level deep and `parseBinding` never looks at a binding's own list, so the nested
+    rules are dropped — not flattened into the method, not an error; the delivered bindings are the primary
+    rule and the first-level additional ones, in order, each copied exactly. -/
+theorem C05_nested_bindings_dropped (svc : Name) (m : DMethod) (h : XHttp) :
+    (parseMethod svc { m with http := some h.flatten }).bindings =
+      parseBinding h.primary :: h.additional.map (fun a => parseBinding a.1) ∧
+    (parseMethod svc { m with http := some h.flatten }).bindings.length = 1 + h.additional.length := by
+  simp [parseMethod, XHttp.flatten, List.map_map, Function.comp_def]
+  omega
+
+/-- every kind of pattern is copied exactly, the `custom` one with ANY kind string (empty, "*", lower case) and
+    any path; `body`/`response_body` are copied whatever they contain ("*", "", a field path) -/
+theorem C05_binding_custom_exact (k p b r : Bytes) :
+    parseBinding { pattern := .custom k p, body := b, responseBody := r } =
+      { httpMethod := k, pattern := p, requestBodyPath := b, responseBodyPath := r } ∧
+    parseBinding { pattern := .unset, body := b, responseBody := r } =
+      { httpMethod := [], pattern := [], requestBodyPath := b, responseBodyPath := r } := by
+  simp [parseBinding]
+
+namespace GB.C05.ExtWitness
+/-- a.proto imports b.proto, b.proto `import public` c.proto, a.A/Do returns c.M -/
+def meth : DMethod :=
+  { name := [68], input := [97, 46, 81], output := [99, 46, 77], clientStreaming := false, serverStreaming := false, http := none }
+def fa : DFile :=
+  { name := [97], deps := [[98]], messages := [[97, 46, 81]], services := [{ name := [97, 46, 65], methods := [meth] }] }
+def fb : DFile := { name := [98], deps := [[99]], messages := [], services := [] }
+def fc : DFile := { name := [99], deps := [], messages := [[99, 46, 77]], services := [] }
+def x (f : DFile) (pkg : Name) (pub weak : List Nat) : XFile :=
+  { file := f, pkg := pkg, syn := sProto3, edition := 0, pub := pub, weak := weak, required := [] }
+end GB.C05.ExtWitness
+
+open GB.C05.ExtWitness in
+/-- `import public` decides acceptance: the type is visible only through the public import of a direct import.
+    With the flag the set is accepted and a.A is delivered with its method; without it (and in the base model,
+    which knows direct imports only) it is rejected; a file's OWN public flag gives it nothing. -/
+theorem C05_public_import_witness :
+    (parseFileDescriptorsX [x fa [97] [] [], x fb [98] [0] [], x fc [99] [] []] [[97, 46, 65]]).toOption.map
+        (fun t => t.services.map (fun s => s.methods.length)) = some [1] ∧
+    (newFilesX [x fa [97] [] [], x fb [98] [] [], x fc [99] [] []]).toOption = none ∧
+    (newFilesX [x fa [97] [0] [], x fb [98] [] [], x fc [99] [] []]).toOption = none ∧
+    (newFiles [fa, fb, fc]).toOption = none := by decide
+
+open GB.C05.ExtWitness in
+/-- weak imports: a weak import of a file that is in no answer is a placeholder (accepted); the same import
+    not marked weak is an error; a symbol equal to another file's package (or a prefix of it) is an error;
+    an import listed twice is an error; an unused import is fine. -/
+theorem C05_weak_pkg_witness :
+    (newFilesX [x { fc with deps := [[122]] } [99] [] [0]]).toOption.isSome = true ∧
+    (newFilesX [x { fc with deps := [[122]] } [99] [] []]).toOption = none ∧
+    (newFilesX [x fc [99] [] [], x { fb with deps := [] } [99, 46, 77, 46, 122] [] []]).toOption = none ∧
+    (newFilesX [x fc [99] [] [], x { fb with deps := [[99], [99]] } [98] [] []]).toOption = none ∧
+    (newFilesX [x fc [99] [] [], x fb [98] [] []]).toOption.isSome = true := by decide
